@@ -630,13 +630,14 @@ class World:
             d0, d1 = inp.start, inp.end
             covers = all((d0 + timedelta(days=j)) in series for j in range((d1 - d0).days + 1))
         folder_after = self.folder_state()
+        emis_sha_after = self.emis_sha()
         changed = sorted(f for f in set(folder_before) | set(folder_after) if folder_before.get(f) != folder_after.get(f))
         return {"outcome": outcome, "effects": list(INSTR.effects), "mem": mem, "error": err, "infra_obj": infra,
                 "n": n, "series_covers_period": covers, "via_manager": via_manager,
                 # observed independently of the instrumentation: which files of the generator folder differ
                 # (size / mtime / bytes), and whether the run changed the parameter dictionaries it was handed
                 "changed_files": changed,
-                "emis_bytes_changed": sorted(f for f, h in emis_sha_before.items() if self.emis_sha().get(f) != h),
+                "emis_bytes_changed": sorted(f for f, h in emis_sha_before.items() if emis_sha_after.get(f) != h),
                 "draws": self.k_now,
                 "dicts_mutated": (self.inputs.vw, self.inputs.programs) != dicts_before}
 
